@@ -4,6 +4,7 @@ import (
 	"fmt"
 	"go/token"
 	"go/types"
+	"regexp"
 	"sort"
 	"strings"
 
@@ -108,6 +109,9 @@ type fnState struct {
 	inlining  int // depth of inlined calls
 	inlineRet *SV // result captured from an inlined callee return
 	strLits   map[string]string
+	quant     int               // >0 while translating the body of a quantifier
+	sentinels []string          // constants of leaf error sentinels seen so far
+	defs      map[string]string // terms behind the names introduced by define
 	notes     map[string]bool
 	rangeIt   map[ssa.Value]string // Range instr -> cell key of its position
 	frameK    map[string]string    // heap map key -> skolem location for the frame check
@@ -118,7 +122,14 @@ type fnState struct {
 
 func (f *fnState) key() string { return f.fn.String() }
 
-func (f *fnState) emit(line string) { f.log = append(f.log, line) }
+func (f *fnState) emit(line string) {
+	if f.quant > 0 && strings.HasPrefix(line, "(assert") {
+		// inside a quantifier body terms mention bound variables: side facts (typing, heap closure)
+		// cannot be stated at top level and are dropped, which only loses knowledge
+		return
+	}
+	f.log = append(f.log, line)
+}
 
 func (f *fnState) declare(name, sort string) {
 	if f.declared[name] {
@@ -151,12 +162,30 @@ func (f *fnState) fresh(prefix, sort string) string {
 
 // define introduces a constant equal to term (keeps queries linear in size).
 func (f *fnState) define(prefix, sort, term string) string {
-	if len(term) < 48 {
+	if len(term) < 48 || f.quant > 0 {
 		return term
 	}
 	n := f.fresh(prefix, sort)
 	f.emit(fmt.Sprintf("(assert (= %s %s))", n, term))
+	if f.defs == nil {
+		f.defs = map[string]string{}
+	}
+	f.defs[n] = term
 	return n
+}
+
+var reMkSl = regexp.MustCompile(`^\(mk-sl .* (?:(\d+)|\(- (\d+) 0\)) (?:\d+|\(- \d+ 0\))\)$`)
+
+// constLen returns the literal length of a slice value built by a constant-size slice expression ("" if unknown).
+func (f *fnState) constLen(sv SV) string {
+	t := sv.T
+	if d, ok := f.defs[t]; ok {
+		t = d
+	}
+	if m := reMkSl.FindStringSubmatch(t); m != nil {
+		return m[1] + m[2]
+	}
+	return ""
 }
 
 // fact records an unconditional truth (typing facts, definitions).
@@ -724,6 +753,10 @@ func (f *fnState) run() {
 		sv := f.freshOf("fv_"+fv.Name(), fv.Type())
 		f.vals[fv] = sv
 		f.params[fv.Name()] = sv
+		if sv.Sort == sLoc {
+			// captured variables are cells of the enclosing function: never nil
+			f.fact(fmt.Sprintf("(not (= %s %s))", sv.T, nilLoc))
+		}
 	}
 	res := fn.Signature.Results()
 	for i := 0; i < res.Len(); i++ {
@@ -1095,6 +1128,11 @@ func (f *fnState) siteAsserts(ins ssa.Instruction, where string) {
 		actx := f.specCtx(nil)
 		actx.locals = true
 		t := f.specBool(a.Clause.E, actx)
+		if a.Assume {
+			f.note(fmt.Sprintf("assumed fact in %s after %q: %s", f.fn.Name(), a.Needle, a.Clause.Text))
+			f.assume(t)
+			continue
+		}
 		f.oblige("ASSERT", a.Clause.Label, fmt.Sprintf("%s %q: %s", where, a.Needle, normSite(a.Clause.Text)), t)
 	}
 }
